@@ -133,7 +133,12 @@ static FILE * sim_open(const char * path, const char * mode, bool & handled)
   int fd = memfd_create("simfs", 0);
   if (fd < 0) { errno = EMFILE; return nullptr; }
   if (writing) {
-    if (std::strchr(mode, 'w')) s.files[path] = "";
+    if (std::strchr(mode, 'w')) {
+      bool existed = s.files.count(path) && !s.files[path].empty();
+      s.files[path] = "";
+      // truncating an existing file is a durable state change: a kill right after it is a crash point too
+      if (existed && s.observer) { s.stats.crash_points++; s.observer(); }
+    }
   } else {
     const std::string & d = s.files[path];
     size_t off = 0;
